@@ -8,7 +8,12 @@ Python indexes - refine 'remove / replace-or-append repetition i of the name', l
 Correspondence: harness/heapcorr.py (histories replayed in the model, state dump per step).
 Oracle: a plain reference model - per element an ordered list of (child name, payload) - is updated
 by the sentence of the property for every successful mutation and compared with the element's real
-children (names and encodings, in order) and with an independent structure-order encoder.
+children (names and encodings, in order) and with an independent structure-order encoder (for open-ended
+segments the positions beyond the structure are taken from the children list, not from the segment's counter).
+Further kinds: malformed-position-accepted (<SEG>_0 / _07 / _-1 name no child), copy-differs-from-source (a proxy
+copy between elements - also of messages with DIFFERENT delimiters - encodes as the source written with the
+target's delimiters), assigned-text-not-encoded / value-differs-from-assignment (message level, texts that the
+stand-alone parser round-trips).
 """
 import json
 import os
@@ -43,6 +48,23 @@ def canonical_text(text, ec):
     if not text or text != text.strip():
         return False
     return text[-1] not in (ec['FIELD'], ec['COMPONENT'], ec['SUBCOMPONENT'], ec['REPETITION'], ec['ESCAPE'], '\r')
+
+
+def roundtrips(text, child):
+    """is the text one that the stand-alone parser of the child's kind gives back unchanged?  (a segment text whose
+    fields fit the structure of the segment in this version; for a group: each of its segment lines)  Texts that
+    do not - e.g. fields beyond the structure of the segment - are C07's matter"""
+    from hl7apy.parser import parse_segment, parse_field, parse_component
+    try:
+        ec = child.encoding_chars
+        kw = dict(version=child.version, encoding_chars=ec, validation_level=child.validation_level)
+        if isinstance(child, Group):
+            return all(parse_segment(line, **kw).to_er7(ec) == line for line in text.split('\r') if line)
+        if isinstance(child, Segment):
+            return parse_segment(text, **kw).to_er7(ec) == text
+        return True
+    except Exception:  # noqa
+        return False
 
 
 def absent_link(x, names):
@@ -97,6 +119,78 @@ def canon(x, name):
     return None
 
 
+def descend(x, names):
+    """the listed element the chain x.n1...nk addresses (first repetitions), from the children lists and the
+    structure data; None when some link is absent or a name cannot be resolved"""
+    t = x
+    for n in names:
+        cn = canon(t, n)
+        lst = t.children.indexes.get(cn, []) if cn else []
+        if not lst:
+            return None
+        t = lst[0]
+    return t
+
+
+DELIMS = ('FIELD', 'COMPONENT', 'REPETITION', 'ESCAPE', 'SUBCOMPONENT')
+
+
+def translate(text, src, dst):
+    """a text written with the delimiters src rewritten with the delimiters dst; None when that is not a plain
+    character-for-character matter (escape sequences, or a delimiter of dst occurring as data)"""
+    if src['ESCAPE'] in text:
+        return None
+    if any(dst[k] in text and dst[k] not in [src[j] for j in DELIMS] for k in DELIMS):
+        return None
+    return text.translate({ord(src[k]): dst[k] for k in DELIMS})
+
+
+def copy_expectation(impl, op):
+    """for x.n1...nk = <proxy>: (encoding the copy must have, delimiters differ?) - the source's first element
+    written with the target's delimiters"""
+    v = op[3] if op[0] in ('setattr', 'setlistindex') else (op[4] if op[0] == 'setindex' else None)
+    if not v or v[0] != 'p' or not (0 <= op[1] < len(impl.I)) or not (0 <= v[1] < len(impl.I)):
+        return None
+    try:
+        src = impl.val(v)[0]
+        sec, tec = dict(src.encoding_chars), dict(impl.I[op[1]].encoding_chars)
+        own = src.to_er7()
+    except Exception:  # noqa
+        return None
+    differ = any(sec[k] != tec[k] for k in DELIMS)
+    want = translate(own, sec, tec)
+    if want is None:
+        try:
+            want = src.to_er7(tec)
+        except Exception:  # noqa
+            return None
+    return want, differ, src.classname
+
+
+def custom_ec(x):
+    """does x use delimiters other than the default ones of its version?"""
+    try:
+        ec, d = x.encoding_chars, H.ec_for(x.version)
+        return any(ec[k] != d[k] for k in DELIMS)
+    except Exception:  # noqa
+        return None
+
+
+MALFORMED = re.compile(r'^[1-9][0-9]*$')
+
+
+def malformed_position(x, name):
+    """a name <SEGMENT>_<suffix> whose suffix is not a plainly written number starting at 1: no child name"""
+    if not isinstance(x, Segment) or not x.name or not isinstance(name, str):
+        return False
+    n = name.upper()
+    pre = x.name.upper() + '_'
+    if not n.startswith(pre):
+        return False
+    suffix = n[len(pre):]
+    return '_' not in suffix and not MALFORMED.match(suffix)
+
+
 def addressed(pos, idx):
     """position in the children list of the idx-th repetition (Python index, may be negative), or None"""
     if idx < 0:
@@ -125,7 +219,17 @@ def spec_encode(x, spec, ec):
     if isinstance(x, Segment):
         keys = list(x.ordered_children or [])
         if x.allow_infinite_children:
-            keys += ['%s_%d' % (x.name, i) for i in range(x._last_allowed_child_index + 1, x._last_child_index + 1)]
+            # the positions beyond the structure, up to the highest one that holds a child (judged from the list,
+            # not from the segment's own counter)
+            top = len(keys)
+            for _, nm, _ in spec:
+                m = re.match(r'^%s_([1-9]\d*)$' % re.escape(x.name), nm or '')
+                if m:
+                    top = max(top, int(m.group(1)))
+            # (the segment's own counter may lag behind a deletion - then positions that are empty now still count -
+            # but it is never below the highest position that holds a child)
+            top = max(top, x._last_child_index)
+            keys += ['%s_%d' % (x.name, i) for i in range(len(keys) + 1, top + 1)]
         slots = [by.get(k) for k in keys]
         slots += [[pl] for _, nm, pl in spec if nm in (None, 'ST')]
         while slots and not slots[-1]:
@@ -287,7 +391,8 @@ def main(argv=None):
         cases = []
         for k in range(nhist // len(versions)):
             lvl = H.TOLERANT if k % 2 == 0 else H.STRICT
-            g = H.Gen(rng, v, lvl, profile=('reps' if k % 4 == 0 else ('segment' if k % 2 else 'deep')), nsteps=nsteps)
+            g = H.Gen(rng, v, lvl, profile=('reps' if k % 4 == 0 else ('open' if k % 8 == 1 else ('segment' if k % 2 else 'deep'))),
+                      nsteps=nsteps)
             state = {}
             check_step(run, g, v, lvl, stats, shapes, state)
             cases.append((g.ops, g.obs))
@@ -344,6 +449,7 @@ def check_step(run, g, v, lvl, stats, shapes, state):
         if phase == 'before':
             state['exp'] = Expect(impl, op)
             state['absent'] = None
+            state['copy'] = copy_expectation(impl, op) if op[0] in ('setattr', 'setindex') else None
             if op[0] in ('setvaluechain', 'setattr') and 0 <= op[1] < len(impl.I) and isinstance(op[2], list):
                 state['absent'] = absent_link(impl.I[op[1]], op[2] if op[0] == 'setvaluechain' else op[2][:-1])
             return
@@ -362,12 +468,42 @@ def check_step(run, g, v, lvl, stats, shapes, state):
                     run.fail('value-differs-from-assignment', '%s.value = %r gives %r, the assignment by name %r'
                              % ('.'.join(op[2]), op[3][:60], a[1][:150], b[1][:150]),
                              rule='setvaluechain', target_class=impl.I[op[1]].classname, depth=len(op[2]),
+                             child_class=getattr(descend(impl.I[op[1]], op[2]), 'classname', None),
+                             target_custom_delimiters=custom_ec(impl.I[op[1]]),
                              custom_delimiters=bool(getattr(g, 'ecs', None)), version=v, level=lvl,
                              ops=g.ops + [op], step=kk)
                     return
+        if data[0] == 0 and len(op) > 2 and isinstance(op[1], int) and 0 <= op[1] < len(impl.I) and \
+                op[0] in ('setattr', 'setindex', 'delattr', 'delindex', 'read', 'readvalue', 'len', 'grab', 'setvaluechain',
+                          'addhelper', 'removebyname'):
+            nm0 = op[2][0] if isinstance(op[2], list) and op[2] else op[2]
+            if malformed_position(impl.I[op[1]], nm0):
+                stats['malformed_positions_accepted'] = stats.get('malformed_positions_accepted', 0) + 1
+                run.fail('malformed-position-accepted', '%s on %r ended normally through the name %r, whose position is not a '
+                         'plainly written number starting at 1' % (op[0], impl.I[op[1]], nm0),
+                         rule=op[0], target_class=impl.I[op[1]].classname, version=v, level=lvl, ops=g.ops + [op], step=kk)
+                return
+        if isinstance(op[2] if len(op) > 2 else None, list) and op[2] and 0 <= op[1] < len(impl.I) and \
+                malformed_position(impl.I[op[1]], op[2][0]):
+            stats['malformed_positions_refused'] = stats.get('malformed_positions_refused', 0) + 1
+        cp = state.get('copy')
+        if cp is not None and data[0] == 0 and msg_level:
+            t = descend(impl.I[op[1]], op[2])
+            if t is not None and op[0] == 'setattr':
+                stats['proxy_copies_compared'] = stats.get('proxy_copies_compared', 0) + 1
+                if cp[1]:
+                    stats['proxy_copies_other_delimiters'] = stats.get('proxy_copies_other_delimiters', 0) + 1
+                got = enc(t, None)
+                if got != cp[0]:
+                    run.fail('copy-differs-from-source', '%s = <%s of another element>: the copy encodes as %r, the source '
+                             'written with the delimiters of the target as %r' % ('.'.join(op[2]), cp[2], got[:120], cp[0][:120]),
+                             rule=op[0], depth=len(op[2]), delimiters_differ=cp[1], source_class=cp[2],
+                             target_custom_delimiters=custom_ec(impl.I[op[1]]),
+                             custom_delimiters=bool(getattr(g, 'ecs', None)), target_class=impl.I[op[1]].classname,
+                             version=v, level=lvl, ops=g.ops + [op], step=kk)
+                    return
         text = op[3] if op[0] == 'setvaluechain' else (op[3][1] if op[0] == 'setattr' and op[3][0] == 't' else None)
-        if msg_level and op[0] in ('setvaluechain', 'setattr') and data[0] == 0 and text and 0 <= op[1] < len(impl.I) \
-                and (state['absent'] or (op[0] == 'setattr' and len(op[2]) >= 2)):
+        if msg_level and op[0] in ('setvaluechain', 'setattr') and data[0] == 0 and text and 0 <= op[1] < len(impl.I):
             # the assigned text is the content of the addressed child: it encodes as that text (canonical texts)
             t = impl.I[op[1]]
             for n in op[2]:
@@ -376,14 +512,17 @@ def check_step(run, g, v, lvl, stats, shapes, state):
                 t = lst[0] if lst else None
                 if t is None:
                     break
-            if t is not None and canonical_text(text, t.encoding_chars) and not op[2][-1].lower().startswith('msh'):
+            if t is not None and canonical_text(text, t.encoding_chars) and not op[2][-1].lower().startswith('msh') \
+                    and roundtrips(text, t):
                 stats['assigned_text_encoded'] = stats.get('assigned_text_encoded', 0) + 1
                 got = enc(t, None)
                 if got != text:
-                    via = 'value-through-proxy' if op[0] == 'setvaluechain' else 'assignment-below-unattached-parent'
+                    via = 'value-through-proxy' if op[0] == 'setvaluechain' else \
+                        ('assignment-below-unattached-parent' if len(op[2]) >= 2 else 'assignment-by-name')
                     run.fail('assigned-text-not-encoded', '%s %s %r: the addressed child encodes as %r'
                              % ('.'.join(op[2]), '.value =' if op[0] == 'setvaluechain' else '=', text[:60], got[:120]),
                              rule=op[0], via=via, depth=len(op[2]), custom_delimiters=bool(getattr(g, 'ecs', None)),
+                             child_class=t.classname, target_custom_delimiters=custom_ec(impl.I[op[1]]),
                              target_class=impl.I[op[1]].classname, version=v, level=lvl, ops=g.ops + [op], step=kk)
                     return
         if op[0] == 'setvaluechain':
